@@ -16,10 +16,16 @@ const rtosc_arg_val_t* rtosc_arg_val_itr_get(const rtosc_arg_val_itr *itr,
     if(itr->av->type == '-')
     {
         if(rtosc_av_rep_has_delta(itr->av))
+        {
             rtosc_arg_val_range_arg(itr->av, itr->range_i, buffer);
+            result = buffer;
+        }
         else
-            *buffer = itr->av[1];
-        result = buffer;
+        {
+            // the repeated value may be an array: return it in place, a copy
+            // of its first arg val would lose the array's elements
+            result = itr->av + 1;
+        }
     }
     else result = itr->av;
     return result;
